@@ -39,7 +39,7 @@ static const char *cname[NCLOSE] = { "close-right-after-submit", "close-from-tim
 static int script, closemode, type_r;
 static struct iv_popen_request *req;
 static int data_fd = -1, side[2];
-static struct env_proc *child;
+static struct env_proc *child, *stranger;
 static int sigchld_due, nblocks, closed;
 static struct timespec close_time;
 static struct iv_timer close_timer;
@@ -88,6 +88,8 @@ static void child_dies(int status)
 {
 	if (child->state == PR_ZOMBIE || child->state == PR_REAPED)
 		return;
+	if (stranger && stranger->state == PR_RUNNING)
+		env_proc_change(stranger, ENV_ST_EXIT(1));      /* an unrelated child ends first; one SIGCHLD covers both */
 	env_proc_change(child, status);
 	sigchld_due = 1;
 	mc_obs("child:%s", WIFEXITED(status) ? "exit" : "killed");
@@ -222,6 +224,10 @@ static void exec_one(void)
 	type_r = mc_choose(2, MC_CONFIG, "type") == 0;
 	script = mc_choose(NSCRIPT, MC_CONFIG, "child-script");
 	closemode = mc_choose(NCLOSE, MC_CONFIG, "close-mode");
+	if (mc_choose(2, MC_CONFIG, "unrelated-child")) {
+		env_proc_spawn_plain();
+		stranger = &env_procs[env_nprocs - 1];
+	}
 	mc_obs("m%d type=%s child=%s %s", method, type_r ? "r" : "w", sname[script], cname[closemode]);
 	if (pipe(side) < 0)
 		mc_broken("pipe");
@@ -280,6 +286,8 @@ static void exec_one(void)
 	check_signal_log();
 	if (child->state != PR_REAPED)
 		mc_fail("popen-zombie", "iv_main returned but the child (state %d) was not reaped", child->state);
+	if (stranger && stranger->nqueue)
+		mc_fail("popen-zombie", "an unrelated child that ended together with the popen child was left unreaped");
 	if (req != NULL) {
 		/* never closed: the child ended by itself; closing now must be harmless */
 		do_close("after-exit");
